@@ -98,8 +98,8 @@ pub struct Stats {
 }
 
 const SIG_CAP: usize = 3_000_000;
-/// a job (C19: one conversation with all its faulted runs) never takes this long unless it spins
-pub const WEDGE_S: u64 = 120;
+/// an evaluation never takes this much CPU time unless the code under test spins
+pub const WEDGE_S: u64 = 90;
 
 impl Stats {
     pub fn bump(&mut self, k: &'static str, n: u64) {
@@ -617,6 +617,24 @@ fn probes(plan: &Plan, out: &Outcome, st: &mut Stats) {
     }
 }
 
+/// CPU time consumed so far by the thread with this pthread id
+fn thread_cpu_s(pt: u64) -> Option<f64> {
+    if pt == 0 {
+        return None;
+    }
+    unsafe {
+        let mut cid: libc::clockid_t = 0;
+        if libc::pthread_getcpuclockid(pt as libc::pthread_t, &mut cid) != 0 {
+            return None;
+        }
+        let mut ts: libc::timespec = std::mem::zeroed();
+        if libc::clock_gettime(cid, &mut ts) != 0 {
+            return None;
+        }
+        Some(ts.tv_sec as f64 + ts.tv_nsec as f64 * 1e-9)
+    }
+}
+
 pub struct BatchResult {
     pub stats: Stats,
     pub wall_s: f64,
@@ -655,19 +673,32 @@ pub fn run_batch(check: &dyn Check, tier: Tier, seed: u64, known: &Known) -> Bat
     // test spins without I/O (the simulator bounds I/O itself). The process then aborts; the
     // supervising parent finds the job through the journal and reports it with a replay file.
     let heartbeats: Vec<AtomicU64> = (0..workers).map(|_| AtomicU64::new(0)).collect();
+    // pthread ids of the workers (for their CPU clocks)
+    let tids: Vec<AtomicU64> = (0..workers).map(|_| AtomicU64::new(0)).collect();
     let all_done = AtomicBool::new(false);
     std::thread::scope(|s| {
         s.spawn(|| {
-            let mut last: Vec<(u64, Instant)> = heartbeats.iter().map(|h| (h.load(Ordering::Relaxed), Instant::now())).collect();
+            // "no progress" is measured in CPU time of the worker thread, not wall time: a
+            // worker that is merely starved or blocked (overloaded machine, journal write held
+            // up by the kernel's dirty-page throttling) is not wedged; one that burns CPU
+            // without finishing an evaluation is
+            let mut last: Vec<(u64, f64)> = heartbeats.iter().map(|h| (h.load(Ordering::Relaxed), 0.0)).collect();
             while !all_done.load(Ordering::Relaxed) {
                 std::thread::sleep(std::time::Duration::from_millis(500));
                 for (i, h) in heartbeats.iter().enumerate() {
                     let v = h.load(Ordering::Relaxed);
+                    if v == 0 || v == u64::MAX {
+                        continue;
+                    }
+                    let cpu = match thread_cpu_s(tids[i].load(Ordering::Relaxed)) {
+                        Some(c) => c,
+                        None => continue,
+                    };
                     if v != last[i].0 {
-                        last[i] = (v, Instant::now());
-                    } else if v != 0 && v != u64::MAX && last[i].1.elapsed().as_secs() >= WEDGE_S {
+                        last[i] = (v, cpu);
+                    } else if cpu - last[i].1 >= WEDGE_S as f64 {
                         eprintln!(
-                            "simcheck: job {} has made no progress for {} s: wedged",
+                            "simcheck: job {} has burnt {} s of CPU without finishing an evaluation: wedged",
                             (v & 0xFFFF_FFFF).wrapping_sub(1),
                             WEDGE_S
                         );
@@ -679,6 +710,7 @@ pub fn run_batch(check: &dyn Check, tier: Tier, seed: u64, known: &Known) -> Bat
         for _ in 0..workers {
             s.spawn(|| {
                 let my_slot = slot.fetch_add(1, Ordering::Relaxed);
+                tids[my_slot as usize].store(unsafe { libc::pthread_self() } as u64, Ordering::Relaxed);
                 let mut ctx = JobCtx {
                     check,
                     known,
